@@ -376,6 +376,7 @@ def check_C15(ctx):
 def check_C19(ctx):
     vt.tlc_design(ctx, 'Params', label='parameter lattice: the code decision path equals the meaning the property assigns (reject / execute exactly)')
     scen = vt.tlc_generate(ctx, 'GenRun', 'C19', 0)
+    scen += vt.tlc_generate(ctx, 'GenRun', 'S01', 0)     # extra: HTTP status mapping (drift only)
     wire_family(ctx, 'C19', scen, RUN_RULE % 'C19All (TTL bounds far beyond 0..255, ports around 0/1/65535/65536, protocol and method strings, target literal forms; library and HTTP API)' +
                 '; non-trivial = the parameter set is not the default one (all are)', nontrivial=lambda s, es: True)
     vt.write_evidence(ctx, 'model_checking', ctx_rule(ctx), exhaustive=True)
